@@ -973,7 +973,8 @@ def _readUrl(  # noqa: C901
                     # at least in GAE
                     decodedCssText = content.decode(encoding if encoding else 'utf-8')
 
-            except UnicodeDecodeError as e:
+            except (UnicodeDecodeError, LookupError) as e:
+                # (LookupError: e.g. an @charset rule naming an unknown encoding)
                 log.warn(e, neverraise=True)
                 decodedCssText = None
 
